@@ -39,7 +39,7 @@ if [ $suite = fail ]; then
     for try in 1 2 3 4 5; do
       if go test -p 1 -count=1 -run "^$t\$" ./... >/dev/null 2>&1; then ok=yes; break; fi
     done
-    [ $ok = yes ] || suite=fail
+    [ $ok = yes ] || { suite=fail; stillfailing="$stillfailing $t"; }
   done
 fi
 mkdir -p $(dirname $place)
@@ -50,4 +50,15 @@ names=$(grep -ho '^func Test[A-Za-z0-9_]*' $mdir/*_test.go | sed 's/^func //' | 
 with=$(go test -count=1 -run "^($names)\$" $pkg 2>&1 | grep -c '^--- FAIL\|^FAIL\|^panic')
 git apply -R $mdir/patch.diff
 without=$(go test -count=1 -run "^($names)\$" $pkg 2>&1 | grep -c '^--- FAIL\|^FAIL\|^panic')
+if [ -n "$stillfailing" ]; then
+  # tests that never passed with the change: do they fail on the clean tree (patch reverted above) under the same load too?
+  suite=pass-same-failures-on-clean-tree
+  for t in $stillfailing; do
+    cleanfail=no
+    for try in 1 2 3; do
+      go test -p 1 -count=1 -run "^$t\$" ./... >/dev/null 2>&1 || { cleanfail=yes; break; }
+    done
+    [ $cleanfail = yes ] || suite=fail
+  done
+fi
 res "suite_with_change=$suite${fails:+ (last failing: $fails)} demo_with_change_failmarks=$with demo_without_change_failmarks=$without"
